@@ -123,7 +123,7 @@ pub fn meta() -> CheckMeta {
         level: "exploration",
         rule: "each case = a generated scheme (sizes <= 65535; incl. the built-in default, missing/empty line 0, junk entries, check marks, reversed ranges, any stop) driving the real send_authentication and a real client Session on a MemPipe that accepts whole writes (one write_all = one record); a single submitter issues stop+3 packets whose payload sizes are placed around the scheme's own sizes (L < s-7, s-7 <= L <= s, L > s, L > sum) ; the preamble (hash, announced length, bytes carried) and the write-length sequence of every session packet k are checked by a nondeterministic reference acceptor for line k (unpadded for k >= stop or a missing line); the server->client recording must contain no command-0 frame. Concurrent part: 2-4 tasks write at the same time for 1-3 rounds under random forced yields at the scheduling points; the j-th packet ON THE WIRE must be accepted by line j (the packet index may not be drawn in one order and the transport reached in another). End to end: the real Client (client.rs: authentication with its configured scheme, Settings + SYN + destination batched into the first packet) against the real Server behind a TCP relay that records the length of every TLS record, i.e. what an on-path observer sees; destinations IPv4 / IPv6 / names of 3-60 characters (different first-packet payloads), then stop+1 echoed chunks sized around the scheme's own sizes; the client->server application record sizes must be explainable as preamble (34 + a size of line 0), then packet k by line k (unpadded from stop on); while echoing, the server->client records must carry exactly the echoed bytes plus 7 bytes per frame. distinct_nontrivial = distinct (scheme, payload sizes, observed write sizes) with at least one shaped packet, plus distinct concurrent interleavings, plus distinct e2e (scheme, record sizes).".into(),
         assumptions: vec!["write-call boundaries are observed because the MemPipe accepts every write whole".into(), "padding byte values are not judged, only sizes".into(), "concurrent part: 2-4 writers x 1-3 rounds under random forced yields on a ladder scheme (distinct size range per line); packets are delimited on the wire by their payload frames".into(), "end-to-end part: one TLS record per transport write below 16 KiB (rustls neither merges nor splits such writes), TLS 1.3 AEAD overhead of 17 bytes calibrated on the client's Finished record (otherwise inconclusive); the first session packet is the batch Settings + SYN + destination, as the anchored mechanism says; the session's own start-up keep-alive request (7 bytes) may land at any packet position; record sizes are cut into packets nondeterministically (any cut that the lines accept counts)".into()],
-        floors: vec![("packets_checked_against_a_scheme_line", 1000), ("packets_checked_after_stop", 300), ("preambles_checked", 500), ("padding_bytes_explained", 10_000), ("concurrent_packets_checked", 500), ("e2e_cases_judged", 100), ("e2e_records_explained", 600), ("e2e_server_records_checked", 200)],
+        floors: vec![("packets_checked_against_a_scheme_line", 1000), ("packets_checked_after_stop", 300), ("preambles_checked", 500), ("padding_bytes_explained", 10_000), ("concurrent_packets_checked", 500), ("e2e_cases_judged", 100), ("e2e_records_explained", 600), ("e2e_server_records_checked", 200), ("e2e_push_cases", 20)],
         exhaustive: false,
     }
 }
@@ -279,7 +279,7 @@ fn spec_accepts(s: &Spec, seg: &[usize]) -> bool {
 
 /// Is there a way to cut the observed write sizes into consecutive segments, one per packet, such that
 /// every packet's segment is accepted by its spec? Returns Err((packets explained, writes explained)).
-fn explain(specs: &[Spec], writes: &[usize]) -> Result<(), (usize, usize)> {
+fn explain(specs: &[Spec], writes: &[usize], allow_rest: bool) -> Result<(), (usize, usize)> {
     let n = writes.len();
     let mut reach = vec![vec![false; n + 1]; specs.len() + 1];
     reach[0][0] = true;
@@ -299,7 +299,7 @@ fn explain(specs: &[Spec], writes: &[usize]) -> Result<(), (usize, usize)> {
             }
         }
     }
-    if reach[specs.len()][n] { Ok(()) } else { Err(best) }
+    if reach[specs.len()][n] || (allow_rest && reach[specs.len()].iter().any(|r| *r)) { Ok(()) } else { Err(best) }
 }
 
 /// length of the Settings frame the real client session sends (taken from the real code on an
@@ -325,12 +325,16 @@ fn measured_settings_frame_len() -> Option<usize> {
 #[derive(Clone, Debug)]
 struct E2eCase {
     idx: usize,
+    /// the client's own scheme when it differs from the server's (`scheme`): the server then pushes `scheme`
+    client_scheme: Option<Scheme>,
     scheme: Scheme,
     host: String,
     chunks: Vec<usize>,
 }
 
 struct E2eOut {
+    /// push variant: records of the first connection (judged by the client's own scheme up to packet 1)
+    first_conn: Option<Vec<usize>>,
     c2s: Vec<usize>,
     handshake_ok: bool,
     note: Option<String>,
@@ -339,6 +343,62 @@ struct E2eOut {
 }
 
 const AEAD_OVERHEAD: usize = 17; // TLS 1.3: 1 byte inner content type + 16 byte tag
+
+/// client->server application plaintext sizes of one recorded connection (handshake flight stripped) and
+/// whether the flight looked as calibrated
+fn app_records(rec: &crate::netkit::ConnRec) -> (Vec<usize>, bool) {
+    let c2s: Vec<crate::netkit::TlsRec> = rec.c2s.lock().unwrap().clone();
+    let mut i = 0;
+    while i < c2s.len() && (c2s[i].typ == 22 || c2s[i].typ == 20) {
+        i += 1;
+    }
+    let ok = i >= 1 && i < c2s.len() && c2s[i].typ == 23 && (c2s[i].len == 36 + AEAD_OVERHEAD || c2s[i].len == 52 + AEAD_OVERHEAD);
+    (c2s[(i + 1).min(c2s.len())..].iter().filter(|r| r.typ == 23).map(|r| r.len.saturating_sub(AEAD_OVERHEAD)).collect(), ok)
+}
+
+/// Push variant: the client is configured with scheme A, the server with scheme B. Session 1 announces A and
+/// is sent B. After it has been closed the client dials session 2, which must be shaped by B from its
+/// authentication preamble on. Returns (records of connection 1, records of connection 2, handshakes ok).
+async fn e2e_push_case(c: &E2eCase, client_scheme: &Scheme, tport: u16) -> Result<(Vec<usize>, Vec<usize>, bool), String> {
+    use crate::engine;
+    use crate::netkit;
+    use bytes::Bytes;
+    use std::time::Duration;
+    let pad_b = engine::padding_from(&c.scheme.text()).map_err(|e| format!("scheme rejected: {e}"))?;
+    let pad_a = engine::padding_from(&client_scheme.text()).map_err(|e| format!("scheme rejected: {e}"))?;
+    let (server_addr, sh) = netkit::start_server(netkit::PASSWORD, pad_b).await.ok_or("cannot start server")?;
+    let relay = netkit::start_rec_relay(server_addr).await.ok_or("cannot start relay")?;
+    let client = netkit::make_client(&relay.addr, netkit::PASSWORD, pad_a, anytls_rs::client::SessionPoolConfig { check_interval: Duration::from_secs(3600), idle_timeout: Duration::from_secs(7200), min_idle_sessions: 0 });
+    let r = async {
+        let mut recs = Vec::new();
+        for round in 0..2usize {
+            let (stream, session) = tokio::time::timeout(Duration::from_secs(30), client.create_proxy_stream((c.host.clone(), tport))).await.map_err(|_| "open did not return in 30 s".to_string())?.map_err(|e| format!("open failed: {e}"))?;
+            let chunks: &[usize] = if round == 0 { &c.chunks[..1] } else { &c.chunks };
+            for (i, n) in chunks.iter().enumerate() {
+                let data: Vec<u8> = (0..*n).map(|j| (j as u8) ^ (i as u8).wrapping_mul(37)).collect();
+                tokio::time::timeout(Duration::from_secs(20), session.write_data_frame(stream.id(), Bytes::from(data.clone()))).await.map_err(|_| "write blocked 20 s".to_string())?.map_err(|e| format!("write failed: {e}"))?;
+                let mut got = vec![0u8; *n];
+                let mut rd = stream.reader().lock().await;
+                tokio::time::timeout(Duration::from_secs(20), rd.read_exact(&mut got)).await.map_err(|_| format!("echo of chunk {i} did not come back in 20 s"))?.map_err(|e| format!("echo read failed: {e}"))?;
+            }
+            tokio::time::sleep(Duration::from_millis(40)).await;
+            let conns = relay.conns.lock().unwrap().clone();
+            if conns.len() != round + 1 {
+                return Err(format!("{} TLS connections after request {} (the first session had been closed)", conns.len(), round + 1));
+            }
+            recs.push(app_records(&conns[round]));
+            // the echo proves that everything the server sent before it (the pushed scheme included) has been processed
+            let _ = tokio::time::timeout(Duration::from_secs(5), session.close()).await;
+            tokio::time::sleep(Duration::from_millis(20)).await;
+        }
+        let ok = recs[0].1 && recs[1].1;
+        Ok((recs[0].0.clone(), recs[1].0.clone(), ok))
+    }
+    .await;
+    sh.abort();
+    drop(relay);
+    r
+}
 
 async fn e2e_case(c: &E2eCase, tport: u16) -> Result<E2eOut, String> {
     use crate::engine;
@@ -383,7 +443,7 @@ async fn e2e_case(c: &E2eCase, tport: u16) -> Result<E2eOut, String> {
         let handshake_ok = i >= 1 && i < c2s.len() && c2s[i].typ == 23 && (c2s[i].len == 36 + AEAD_OVERHEAD || c2s[i].len == 52 + AEAD_OVERHEAD);
         let app: Vec<usize> = c2s[(i + 1).min(c2s.len())..].iter().filter(|r| r.typ == 23).map(|r| r.len.saturating_sub(AEAD_OVERHEAD)).collect();
         let s2c_bytes: usize = s2c.iter().map(|r| r.len.saturating_sub(AEAD_OVERHEAD)).sum();
-        let out = E2eOut { c2s: app, handshake_ok, note: None, s2c_delta: (s2c_bytes, s2c.len()), echoed };
+        let out = E2eOut { first_conn: None, c2s: app, handshake_ok, note: None, s2c_delta: (s2c_bytes, s2c.len()), echoed };
         let _ = tokio::time::timeout(Duration::from_secs(5), session.close()).await;
         Ok(out)
     }
@@ -458,7 +518,16 @@ pub fn run_e2e(ctx: Ctx) -> Report {
                     base.clamp(1, 8000) as usize
                 })
                 .collect();
-            cases.push(E2eCase { idx, scheme, host, chunks });
+            let client_scheme = if idx % 4 == 3 {
+                let mut a = refscheme::gen_scheme(&mut rng, &cfg);
+                if a.text() == scheme.text() {
+                    a.stop += 1;
+                }
+                Some(a)
+            } else {
+                None
+            };
+            cases.push(E2eCase { idx, client_scheme, scheme, host, chunks });
         }
         let results: Arc<Mutex<Vec<(E2eCase, Result<E2eOut, String>)>>> = Arc::new(Mutex::new(Vec::new()));
         {
@@ -467,7 +536,10 @@ pub fn run_e2e(ctx: Ctx) -> Report {
                 let results = results.clone();
                 async move {
                     let port = if c.host == "::1" { p6 } else { p4 };
-                    let r = e2e_case(&c, port).await;
+                    let r = match &c.client_scheme {
+                        None => e2e_case(&c, port).await,
+                        Some(a) => e2e_push_case(&c, a, port).await.map(|(first, second, ok)| E2eOut { first_conn: Some(first), c2s: second, handshake_ok: ok, note: None, s2c_delta: (0, 0), echoed: 0 }),
+                    };
                     results.lock().unwrap().push((c, r));
                 }
             })
@@ -475,7 +547,7 @@ pub fn run_e2e(ctx: Ctx) -> Report {
         }
         let results = std::mem::take(&mut *results.lock().unwrap());
         for (c, r) in results {
-            let desc = json!({"kind": "c05-e2e", "idx": c.idx, "scheme": c.scheme.text(), "host": c.host, "chunks": c.chunks, "seed": seed.to_string()});
+            let desc = json!({"kind": "c05-e2e", "idx": c.idx, "client_scheme": c.client_scheme.as_ref().map(|a| a.text()), "scheme": c.scheme.text(), "host": c.host, "chunks": c.chunks, "seed": seed.to_string()});
             let out = match r {
                 Ok(o) => o,
                 Err(e) => {
@@ -504,12 +576,16 @@ pub fn run_e2e(ctx: Ctx) -> Report {
             };
             let mut payloads = vec![first_payload];
             payloads.extend(c.chunks.iter().map(|n| 7 + n));
-            let build = |payloads: &[usize]| {
+            let build_for = |sch: &Scheme, payloads: &[usize]| {
+                let (lo, hi) = match sch.items(0).unwrap_or_default().first() {
+                    Some(Item::Range(lo, hi)) => (*lo, *hi),
+                    _ => (0, 0),
+                };
                 let mut specs = vec![Spec::Preamble(lo, hi)];
                 for (i, p) in payloads.iter().enumerate() {
                     let k = (i + 1) as u32;
-                    specs.push(if k < c.scheme.stop {
-                        match c.scheme.items(k) {
+                    specs.push(if k < sch.stop {
+                        match sch.items(k) {
                             Some(items) => Spec::Shaped(items, *p),
                             None => Spec::Unpadded(*p),
                         }
@@ -519,6 +595,20 @@ pub fn run_e2e(ctx: Ctx) -> Report {
                 }
                 specs
             };
+            let build = |payloads: &[usize]| build_for(&c.scheme, payloads);
+            // push variant, first connection: the preamble and the first packet are shaped by the client's own
+            // scheme (the server can push only after it has read them); later packets may follow either scheme
+            if let (Some(a), Some(first)) = (&c.client_scheme, &out.first_conn) {
+                rep.add("e2e_push_cases", 1);
+                let mut ok = false;
+                for fp in [first_payload, first_payload + 7] {
+                    ok |= explain(&build_for(a, &[fp]), first, true).is_ok();
+                }
+                if !ok {
+                    rep.violate("shape", "e2e+scheme_push+first_session", "tls_record_sizes_not_explained_by_scheme", format!("client configured with scheme A, server with B: the first connection's records {:?} do not start with a preamble by A's line 0 and a first packet (payload {first_payload}) by A's line 1; A = {:?}", first, a.text()), desc.clone());
+                    continue;
+                }
+            }
             // The session's keep-alive task sends one HeartRequest (a 7-byte frame) when it starts; where it
             // lands relative to the request's packets depends on scheduling: inside the first batch, or as
             // a packet of its own after any packet. It is a session packet like any other and takes a line.
@@ -535,7 +625,7 @@ pub fn run_e2e(ctx: Ctx) -> Report {
             }
             let mut verdict: Result<String, (usize, usize)> = Err((0, 0));
             for (name, alt) in &alternatives {
-                match explain(&build(alt), &out.c2s) {
+                match explain(&build(alt), &out.c2s, false) {
                     Ok(()) => {
                         verdict = Ok(name.clone());
                         break;
@@ -558,13 +648,22 @@ pub fn run_e2e(ctx: Ctx) -> Report {
                 rep.seen("e2e_keep_alive_position", name.clone());
             }
             if let Err((pk, wr)) = verdict {
-                let cause = if pk <= 1 { "first_packet" } else if (pk as u32) < c.scheme.stop { "packet_below_stop" } else { "packet_at_or_after_stop" };
+                let cause = if c.client_scheme.is_some() {
+                    "scheme_push+session_dialled_after_the_push"
+                } else if pk <= 1 {
+                    "first_packet"
+                } else if (pk as u32) < c.scheme.stop {
+                    "packet_below_stop"
+                } else {
+                    "packet_at_or_after_stop"
+                };
                 rep.violate(
                     "shape",
                     &format!("e2e+{cause}"),
                     "tls_record_sizes_not_explained_by_scheme",
                     format!(
-                        "real Client -> Server behind a record-length relay: client->server application records carry plaintext sizes {:?}; packets expected: preamble 34+[{lo},{hi}], then payloads {:?} (first = Settings {settings_len} + SYN 7 + destination {}), stop={}. No way to cut the records into consecutive packets accepted by lines 0,1,2,... (with the session's one keep-alive request placed anywhere): at best {pk} packets / {wr} records can be explained; line {} = {:?}",
+                        "real Client -> Server behind a record-length relay{}: client->server application records carry plaintext sizes {:?}; packets expected: preamble 34+[{lo},{hi}], then payloads {:?} (first = Settings {settings_len} + SYN 7 + destination {}), stop={}. No way to cut the records into consecutive packets accepted by lines 0,1,2,... (with the session's one keep-alive request placed anywhere): at best {pk} packets / {wr} records can be explained; line {} = {:?}",
+                        if c.client_scheme.is_some() { " (the server pushed this scheme to the client's previous session, which was then closed; this is the next session the client dialled)" } else { "" },
                         out.c2s,
                         payloads,
                         7 + addr_len,
@@ -574,6 +673,9 @@ pub fn run_e2e(ctx: Ctx) -> Report {
                     ),
                     desc.clone(),
                 );
+                continue;
+            }
+            if c.client_scheme.is_some() {
                 continue;
             }
             // the server never pads: everything it sent during the echo phase is data frames
